@@ -887,6 +887,12 @@ class Interp(CallMixin):
                     return v
             raise PyRaise(self.exc("builtins.KeyError", idx))
         if isinstance(cont, ClassVal):
+            c_ = self.model.classes.get(cont.name)
+            if c_ is not None and self.model.is_enum(c_) and isinstance(idx, str):
+                members = self.model.enum_members(c_)
+                if idx in members:
+                    return EnumVal(cont.name, idx, members[idx])
+                raise PyRaise(self.exc("builtins.KeyError", idx))
             return cont  # generic alias like BaseTransformer[...]
         if isinstance(cont, ExtVal):
             return cont
@@ -926,7 +932,12 @@ class Interp(CallMixin):
             cls = self.model.classes.get(v.cls)
             m = self.model.find_method(cls, "__str__") if cls is not None and not repr_mode else None
             if m is not None:
-                return self.to_str(self.call(FuncVal(fn=m, self_obj=v, module=m.module), [], {}, node, frame), node, frame)
+                res_ = self.call(FuncVal(fn=m, self_obj=v, module=m.module), [], {}, node, frame)
+                if not isinstance(res_, (str, StrT)):
+                    if isinstance(res_, Opaque):
+                        return StrT((res_,))
+                    self.raise_("TypeError", f"__str__ returned non-string (type {type(res_).__name__})")
+                return res_
             if v.cls == "lark.Token":
                 return self.to_str(v.fields.get("value"), node, frame)
             if self.is_subclass(v.cls, "builtins.BaseException"):
